@@ -1,7 +1,12 @@
 use crate::ctx::{Ctx, Tier};
 use serde_json::Value;
 
+pub mod c01;
+pub mod c02;
 pub mod c03;
+pub mod c04;
+pub mod c05;
+pub mod c06;
 pub mod c17;
 
 pub struct PropSpec {
@@ -10,6 +15,8 @@ pub struct PropSpec {
     pub rule: &'static str,
     pub assumptions: &'static [&'static str],
     pub workers: u32,
+    /// also run every worker from the binary built without overflow checks (C01)
+    pub also_nochk: bool,
     pub quick_budget_s: u64,
     pub thorough_budget_s: u64,
     pub min_nontrivial_quick: u64,
@@ -28,7 +35,7 @@ impl PropSpec {
 }
 
 pub fn all() -> Vec<PropSpec> {
-    vec![c03::spec(), c17::spec()]
+    vec![c01::spec(), c02::spec(), c03::spec(), c04::spec(), c05::spec(), c06::spec(), c17::spec()]
 }
 
 pub fn find(id: &str) -> Option<PropSpec> {
